@@ -72,7 +72,7 @@ def env():
 
 _ASAN = re.compile(r"==\d+==ERROR: (?:AddressSanitizer|LeakSanitizer): ([^\n]*)")
 _UBSAN = re.compile(r"([^\s:]+):(\d+):(\d+): runtime error: ([^\n]*)")
-_FRAME = re.compile(r"#\d+ 0x[0-9a-f]+ in (\S+) (\S+?):(\d+)")
+_FRAME = re.compile(r"#\d+ 0x[0-9a-f]+ in ([^\s(]+)[^\n]*? (/\S+?)(?::\d+)*\n")
 
 
 def san_report(err):
@@ -110,6 +110,22 @@ def san_report(err):
     return kind, frame or "?"
 
 
+def gdb_frame(tool, args, cwd):
+    """innermost repository frame of a death without sanitizer report (the tools' own SIGSEGV handler calls abort())"""
+    import subprocess
+    try:
+        g = subprocess.run(["gdb", "-batch", "-ex", "set disable-randomization off", "-ex", "run", "-ex", "bt 30", "--args", build.tool("san", tool)] + args,
+                           cwd=cwd, capture_output=True, timeout=180, env=env())
+    except (subprocess.TimeoutExpired, OSError):
+        return "?"
+    out = g.stdout.decode("latin-1")
+    for m in re.finditer(r"#\d+\s+(?:0x[0-9a-f]+ in )?([^\s(]+) \([^\n]*?\) at ([^\s:]+):\d+", out):
+        fn, path = m.group(1), m.group(2)
+        if "/src/" in path and "compiler-rt" not in path and fn not in ("ERRORabort", "ERRORnospace"):
+            return fn
+    return "?"
+
+
 def ceiling(nbytes):
     return 20.0 + 40e-6 * nbytes
 
@@ -122,7 +138,8 @@ def judge(r, nbytes):
     if r.timeout:
         return "hang", "no exit within the wall-clock guard (cpu %.1fs)" % r.cpu
     if r.sig:
-        return "signal-%d" % r.sig, "ended by %s; stderr: %s" % (r.status, r.err[-200:])
+        m = re.search(r"@@gdb-frame (\S+)", r.err)
+        return "signal-%d:%s" % (r.sig, m.group(1) if m else "?"), "ended by %s; stderr: %s" % (r.status, r.err[-200:])
     if r.cpu > ceiling(nbytes):
         return "hang", "cpu %.1fs > ceiling %.1fs" % (r.cpu, ceiling(nbytes))
     if r.rc == 0:
@@ -142,6 +159,8 @@ def run_case(sc, tool, data, opts=(), timeout=None, keep=False):
     d = sc.fresh("w")
     args = list(opts) + ([p] if tool != "exppp" or "-o" in opts else ["-o", "out.exp", p])
     r = F.run_tool(build.tool("san", tool), args, cwd=d, timeout=timeout or (60 + 3 * ceiling(len(data))), env=env(), light=True)
+    if r.sig and not r.timeout and san_report(r.err) is None:
+        r.err += "\n@@gdb-frame %s\n" % gdb_frame(tool, args, d)
     shutil.rmtree(d, ignore_errors=True)
     if not keep:
         try:
